@@ -83,9 +83,11 @@ def replay_sht(data):
         got = held
         if not np.allclose(sht.analysis_pure_python_cplx(f), got, rtol=0, atol=1e-11):
             bad.append("L=%d: compiled complex analysis != pure-python reference" % L)
-        if not np.allclose(sht.synthesis(c), f, rtol=0, atol=1e-10):
+        # (at L = 0 both coefficient layouts have length 1 and synthesis reads a vector as the real layout: the property's domain is
+        # L >= 1 for the complex transform, L >= 0 for the real one)
+        if L >= 1 and not np.allclose(sht.synthesis(c), f, rtol=0, atol=1e-10):
             bad.append("L=%d: complex synthesis does not reproduce the function" % L)
-        if not np.allclose(sht.synthesis_pure_python_cplx(c), sht.synthesis(c), rtol=0, atol=1e-11):
+        if L >= 1 and not np.allclose(sht.synthesis_pure_python_cplx(c), sht.synthesis(c), rtol=0, atol=1e-11):
             bad.append("L=%d: compiled complex synthesis != pure-python reference" % L)
         # real transform
         cr = rng.normal(size=sht.nplm()) + 1j * rng.normal(size=sht.nplm())
@@ -109,7 +111,7 @@ def replay_sht(data):
             bad.append("L=%d: point-wise evaluation (real) differs from the harmonics" % L)
         vc = sht.evaluate_at_points(c, t0, p0)
         wantc = sum(c[l * (l + 1) + m] * sph_harm_y(l, m, t0, p0) for l in range(L + 1) for m in range(-l, l + 1))
-        if abs(vc - wantc) > 1e-10:
+        if L >= 1 and abs(vc - wantc) > 1e-10:
             bad.append("L=%d: point-wise evaluation (complex) differs from the harmonics" % L)
         # evaluation is a pure function of its arguments: same answer when asked again, coefficient arrays untouched
         cr0, c0 = cr.copy(), c.copy()
